@@ -1850,6 +1850,22 @@ def sig_check(prop, tier):
                 reached, total = tv2["progress"][sid]
                 run.violation("C10 stub v=%s page_off=%s" % (byid[sid].get("boolv"), byid[sid].get("off")),
                               {"scenario": byid[sid], "first_unmatched_event": evs[reached] if reached < len(evs) else None})
+        # the same bool functions forced again in later injector lifetimes of the process, their pages mapped afresh (r-x) at the
+        # same addresses in between (generated code that its owner re-emits), near and straddling entries
+        mscen = []
+        for base in (0x10000000, 0x200000000):
+            for offs in ([0x100, 0x1000], [0xffc, 0x40], [0x0]):
+                mscen.append({"id": len(mscen) + 1, "mode": "multi", "lives": [{"base": base, "pages": 2, "offs": offs, "bool": True} for _ in range(3)]})
+        mg, mo, _ = vlib.run_harness("placement", mscen, "placement_C10m")
+        tvm = tlc.validate_traces("Trace_Patch", cfg2, [(sc["id"], mg.get(sc["id"], [])) for sc in mscen], WORK, "trace_stub_C10m", timeout=600)
+        run.traces += len(tvm["accepted"])
+        for sc in mscen:
+            run.note_case("bool again in later lifetimes " + json.dumps(sc["lives"][0]))
+            if sc["id"] not in tvm["accepted"]:
+                evs = mg.get(sc["id"], [])
+                reached, total = tvm["progress"].get(sc["id"], (0, -1))
+                run.violation("C10 forced again in a later lifetime base=%#x offs=%s" % (sc["lives"][0]["base"], sc["lives"][0]["offs"]),
+                              {"scenario": sc, "first_unmatched_event": evs[reached] if reached < len(evs) else None})
         regs_part(run, "C10", tier)
         # a forced boolean installed on top of (or underneath) other fakes of the same function: every call while it is the
         # newest installation returns exactly the value
